@@ -47,7 +47,12 @@ var promFrags = []string{"up", "m{a=\"b\"}", "m{a!=\"b\",c=~\"x.*\"}", "sum(m) b
 var promNumVals = []string{"-1", "-0.5", "-0.0001", "-2", "-1e9", "-1e18", "-1e308", "0", "-0", "0.5", "1", "1.5", "2", "2.5", "3", "100", "1e3", "1e9", "1e18", "1e19", "1e308", "4294967296", "9223372036854775807", "9223372036854775808",
 	"-9223372036854775809", "NaN", "-NaN", "Inf", "+Inf", "-Inf", "0x10", "1e-320", "0.9999999999999999", "1.0000000000000002"}
 var promNumDurs = []string{"1ms", "1s", "10s", "15s", "1m", "2m", "5m", "10m", "1h", "1d", "1y", "200y", "0s", "0", "-1s", "-5m", "1e3", "1.5", "5m30s", "292y", "300y", "9223372036854775807s", "1s1ms", "1", "60", "0.5"}
-var promNumInts = []string{"0", "1", "2", "9", "10", "99", "-1", "1.5", "99999999999999999999", "4294967296", "00", "+1"}
+var promNumInts = []string{"0", "1", "2", "9", "10", "99", "-1", "1.5", "99999999999999999999", "4294967296", "00", "+1", "-2", "-99", "{x}", "{1}", "{-1}", "{", "", "$", "name", "-"}
+
+// what follows the `$` of a capture-group reference (label_replace): negative, zero, an existing group, a missing group, beyond
+// int, a fraction, a name in braces, a number in braces, a negative number in braces, an open brace, nothing (the `$` ends
+// the replacement), a second `$`, a name, a sign alone
+var promNumRefClasses = []string{"-1", "0", "1", "2", "99", "99999999999999999999", "1.5", "{x}", "{1}", "{-1}", "{", "", "$", "name", "-", "+1"}
 var promNumTmpls = []string{
 	"quantile_over_time(%v, %m[%d])", "quantile_over_time(%v, %m[5m])", "quantile_over_time(%v, %m[2m])", "quantile_over_time(%v, %m[10m:%d])", "quantile_over_time(%v, rate(%m[1m])[5m:30s])",
 	"quantile(%v, %m)", "quantile by (host) (%v, %m)", "quantile without (host) (%v, %m)", "quantile(%v, rate(%m[5m]))",
@@ -74,7 +79,7 @@ var promNumClasses = []string{"-0.5", "-1", "-1e308", "0", "1", "2", "1.5", "1e1
 
 // the functions whose numeric PARAMETER is taken from the query text (the others compute with the number)
 var promNumPrimary = map[string]bool{"quantile_over_time": true, "quantile": true, "topk": true, "bottomk": true, "limitk": true, "limit_ratio": true, "holt_winters": true, "double_exponential_smoothing": true,
-	"predict_linear": true, "clamp": true, "clamp_min": true, "clamp_max": true, "round": true, "histogram_quantile": true, "histogram_fraction": true, "vector": true, "at": true}
+	"predict_linear": true, "label_replace": true, "clamp": true, "clamp_min": true, "clamp_max": true, "round": true, "histogram_quantile": true, "histogram_fraction": true, "vector": true, "at": true}
 
 // promNumPlan: the first template of every function × promNumClasses, generated SYSTEMATICALLY before anything random:
 // first the functions with a numeric parameter over each of the given selectors (a dense series, a metric with several
@@ -84,7 +89,7 @@ func promNumPlan(r *rand.Rand, sels []string) [][3]string {
 	var prim, rest []string
 	for _, t := range promNumTmpls {
 		fn := promNumFn(t)
-		if seen[fn] || !strings.Contains(t, "%v") || fn == "arith" {
+		if seen[fn] || !(strings.Contains(t, "%v") || strings.Contains(t, "%i")) || fn == "arith" {
 			continue
 		}
 		seen[fn] = true
@@ -98,7 +103,11 @@ func promNumPlan(r *rand.Rand, sels []string) [][3]string {
 	add := func(ts []string, sel string) {
 		var part [][3]string
 		for _, t := range ts {
-			for _, c := range promNumClasses {
+			classes := promNumClasses
+			if !strings.Contains(t, "%v") { // a capture-group reference instead of a number
+				classes = promNumRefClasses
+			}
+			for _, c := range classes {
 				part = append(part, [3]string{t, c, sel})
 			}
 		}
@@ -114,8 +123,11 @@ func promNumPlan(r *rand.Rand, sels []string) [][3]string {
 	return plan
 }
 
-// promNumFillClass: the first %v of the template is the given value, the rest as in promNumFill
+// promNumFillClass: the first %v (else the first %i) of the template is the given value, the rest as in promNumFill
 func promNumFillClass(r *rand.Rand, t, val string, sels []string) string {
+	if !strings.Contains(t, "%v") {
+		return promNumFill(r, strings.Replace(t, "%i", val, 1), sels)
+	}
 	return promNumFill(r, strings.Replace(t, "%v", val, 1), sels)
 }
 
